@@ -101,4 +101,15 @@ func init() {
 	registerGoLite(glGroup{id: "golitebt", out: "GoLiteBT.v", pkgDir: "blocktimeindex",
 		funcs:   []glFunc{{recv: "Index", name: "Get"}, {recv: "Index", name: "Set"}, {name: "blocktimeToBytes"}},
 		externs: []string{"NewErrSlotOutOfRange"}})
+	// (*LinkedLog).ReadWithSize: the record reader of the address index's linked log (bounds, one positioned read, the
+	// record's own length prefix, pointer to the previous record, decompression, the entry decoder)
+	registerGoLite(glGroup{id: "golitellc06", out: "GoLiteLLC06.v", pkgDir: "gsfa/linkedlog",
+		funcs: []glFunc{
+			{recv: "uvarintReader", name: "ReadUvarint"}, {recv: "uvarintReader", name: "ReadByte"},
+			{recv: "OffsetAndSizeAndSlot", name: "FromReader"}, {name: "OffsetAndSizeAndSlotSliceFromBytes"},
+			{name: "decompressIndexes"}, {recv: "LinkedLog", name: "ReadWithSize"},
+		},
+		externs: []string{"binary.Uvarint", "tooling.DecompressZstd", "LinkedLog.getCurrentOffset", "os.File.ReadAt:out0",
+			"github.com/rpcpool/yellowstone-faithful/indexes.OffsetAndSize.FromBytes:recv"},
+		devirt: map[string]string{"UvarintReader": "uvarintReader"}, hoist: true})
 }
